@@ -155,4 +155,20 @@ def check (cfg : Cfg) (tr : List TStep) : Verdict := checkFrom cfg {} 0 tr
 /-- Configurations the daemon accepts (config/src/validate.rs): hold time 0 or 3..65535. -/
 def cfgValid (cfg : Cfg) : Bool := cfg.localHold = 0 ∨ (3 ≤ cfg.localHold ∧ cfg.localHold ≤ 65535)
 
+/-- Timed histories the driver can actually produce.  In the timed setting the two timer
+    inputs are generated by the clock (`wait`), never injected; and an OPEN that reaches the FSM
+    already parsed has passed `parse_message`, which rejects hold times 1 and 2 (`parseOpen`;
+    a `rawOpen` event goes through that check inside the model and is unrestricted here). -/
+def wfEv : Ev → Bool
+  | .input .holdTimer => false
+  | .input .kaTimer => false
+  | .input (.msg (.open o)) => o.hold ≠ 1 ∧ o.hold ≠ 2
+  | _ => true
+
+def wfTEv : TEv → Bool
+  | .ev _ e => wfEv e
+  | .wait _ => true
+
+def wfHist (h : List TEv) : Bool := h.all wfTEv
+
 end Rbgp.Fsm.TimedSpec
